@@ -5,7 +5,7 @@
 import Valida.Path
 import ValidaSpec.Walk
 import ValidaProofs.Lemmas.Basic
-namespace ValidaProofs
+namespace ValidaProofs.C03
 open Valida ValidaGen ValidaSpec
 
 /-! ### lock-step (no assumption on the steps) -/
@@ -171,4 +171,4 @@ theorem getData_of_walk (p : Path) (doc : PyVal) (nodes : List PyVal) (paths : L
   cases p.concrete <;> simp
   cases (nodes.zip paths).head? <;> rfl
 
-end ValidaProofs
+end ValidaProofs.C03
